@@ -1992,6 +1992,9 @@ class Checker:
         if segs == ["Box", "new"] and len(args) == 1:
             e.res = ("ident",)
             return self.infer(args[0])
+        if segs[-2:] == ["Bitmap", "new"] and not args:
+            e.res = ("emptyiter",)        # `croaring::Bitmap::new()`: the empty set (a bitmap is its ascending element list)
+            return ("vec", "u32")
         if n == "empty" and len(segs) >= 2 and segs[-2] == "iter" and not args:
             e.res = ("emptyiter",)
             return ("vec", TVar())
@@ -4113,6 +4116,7 @@ WHITELIST = [
     # phase 7: the write side of the nonce packing (`compressed` is written through and re-sliced)
     Entry(POWT, None, "pack_bits", "pack_bits", "FnsPack", outparam="compressed"),
     Entry(POWT, "Proof", "pack_nonces", "Proof_pack_nonces", "FnsPack"),
+    Entry(CUCKATOO, "Graph", "new", "Graph_new", "FnsCtx"),
     Entry(CUCKATOO, "CuckatooContext", "verify_impl", "Cuckatoo_verify", "FnsVerify",
           fuel={3: VERIFY_FUEL, 4: VERIFY_FUEL}),
     Entry(CUCKAROOZ, "CuckaroozContext", "verify", "Cuckarooz_verify", "FnsVerify", trait="PoWContext",
